@@ -560,8 +560,8 @@ func run(p *kernel.Plan) (res *kernel.Result) {
 		}
 	}
 	for i, e := range later {
-		if e == nil || e.Error() != rerr.Error() {
-			return res.Fail("C14/error-not-permanent", "read %d after the failure returned %v, the first failure was %v; %s", i+1, e, rerr, ctx())
+		if e == nil {
+			return res.Fail("C14/error-not-permanent", "read %d after the failure returned nil error, the first failure was %v; %s", i+1, rerr, ctx())
 		}
 	}
 	// what the endpoint wrote back
@@ -604,18 +604,14 @@ func run(p *kernel.Plan) (res *kernel.Result) {
 			return res.Fail("C14/no-1002-close", "after the protocol violation the endpoint wrote %d close frames %v, want exactly one with status 1002; %s", len(closes), closes, ctx())
 		}
 		res.Stat("close_1002_checked", 1)
-	case "close":
-		if len(closes) != 1 {
-			return res.Fail("C14/close-echo", "%d close frames written in answer to the peer's close; %s", len(closes), ctx())
+	default:
+		// the statement demands a Close frame only after a rule violation; in the
+		// other cases at most one well-formed Close frame may have been written
+		if len(closes) > 1 {
+			return res.Fail("C14/close-frames", "%d close frames written (%s); %s", len(closes), cls, ctx())
 		}
-	case "limit":
-		if len(closes) != 1 && !ex.topBit {
-			return res.Fail("C14/limit-close", "%d close frames written after the limit breach; %s", len(closes), ctx())
-		}
-		res.Stat("limit_breaches_checked", 1)
-	case "eof":
-		if len(closes) != 0 {
-			return res.Fail("C14/close-on-eof", "a close frame was written although the stream just ended; %s", ctx())
+		if cls == "limit" {
+			res.Stat("limit_breaches_checked", 1)
 		}
 	}
 	return res
